@@ -35,8 +35,13 @@ def _phot_requests():
     mask = np.zeros(d1.shape, dtype=bool); mask[9:11, 10:12] = True
 
     def obs(obj, res):
-        img = obj.make_model_image(d1.shape, psf_shape=(9, 9))
-        return [res, img, getattr(obj, 'fit_info', None) and sorted(obj.fit_info.keys())]
+        img = obj.make_model_image(d1.shape, psf_shape=(9, 9)) if res is not None else None
+        # the public per-call result attributes are part of what the object reports after the call
+        state = {k: getattr(obj, k, None) for k in ('results', 'fit_params', 'finder_results', 'init_params')}
+        fr = getattr(obj, 'fit_results', None)
+        if fr is not None:
+            state['fit_results'] = [getattr(x, 'results', None) for x in fr]
+        return [res, img, getattr(obj, 'fit_info', None) and sorted(obj.fit_info.keys()), state]
     return {
         'plain1': lambda o: obs(o, o(d1, init_params=tab(p1))),
         'plain2': lambda o: obs(o, o(d2, init_params=tab(p2))),
@@ -44,6 +49,7 @@ def _phot_requests():
         'localbkg': lambda o: obs(o, o(d1, init_params=tab(p1, local_bkg=[1.0, 2.0, 0.5, 0.0]))),
         'masked': lambda o: obs(o, o(d1, mask=mask, init_params=tab(p1))),
         'finder': lambda o: obs(o, o(d2)),
+        'nosources': lambda o: obs(o, o(np.zeros_like(d1))),          # the finder detects nothing: the call ends before any fit
     }
 
 
@@ -85,6 +91,11 @@ def _finder_make(kind):
     def mk():
         from photutils.detection import DAOStarFinder, IRAFStarFinder, StarFinder
         from photutils.psf import CircularGaussianPRF
+        xy = np.array([[10.3, 9.6], [15.2, 11.8], [30.7, 25.1], [36.4, 30.2]])
+        if kind == 'dao_xy':
+            return DAOStarFinder(15.0, 3.0, xycoords=xy)
+        if kind == 'iraf_xy':
+            return IRAFStarFinder(15.0, 3.0, xycoords=xy)
         if kind == 'dao':
             return DAOStarFinder(15.0, 3.0, brightest=3)
         if kind == 'iraf':
@@ -147,11 +158,13 @@ def kinds(quick):
     emk, ereq = _ellipse_setup()
     gmk, greq = _gridded_setup()
     k = {
-        'PSFPhotometry': dict(make=_phot_make, reqs=pm, config=_phot_config, depth=3 if quick else 3, subset=['plain1', 'groupid', 'localbkg', 'masked', 'finder', 'plain2'][:(4 if quick else 6)]),
-        'IterativePSFPhotometry': dict(make=_iter_make, reqs=pm, config=_phot_config, depth=2, subset=['plain1', 'groupid', 'finder'] + ([] if quick else ['masked', 'plain2'])),
+        'PSFPhotometry': dict(make=_phot_make, reqs=pm, config=_phot_config, depth=3 if quick else 3, subset=['plain1', 'groupid', 'nosources', 'masked', 'finder', 'localbkg', 'plain2'][:(5 if quick else 7)]),
+        'IterativePSFPhotometry': dict(make=_iter_make, reqs=pm, config=_phot_config, depth=2, subset=['plain1', 'nosources', 'finder'] + ([] if quick else ['groupid', 'masked', 'plain2'])),
         'DAOStarFinder': dict(make=_finder_make('dao'), reqs=fr, config=None, depth=3, subset=list(fr)),
         'IRAFStarFinder': dict(make=_finder_make('iraf'), reqs=fr, config=None, depth=3, subset=list(fr)),
         'StarFinder': dict(make=_finder_make('star'), reqs=fr, config=None, depth=3, subset=list(fr)),
+        'DAOStarFinder_xycoords': dict(make=_finder_make('dao_xy'), reqs=fr, config=None, depth=3, subset=['img1', 'img2', 'img1_masked']),
+        'IRAFStarFinder_xycoords': dict(make=_finder_make('iraf_xy'), reqs=fr, config=None, depth=3, subset=['img1', 'img2', 'img1_masked']),
         'Ellipse': dict(make=emk, reqs=ereq, config=None, depth=2, subset=['free', 'fixcen', 'fixpa'] + ([] if quick else ['one'])),
         'GriddedPSFModel': dict(make=gmk, reqs=greq, config=None, depth=3, subset=list(greq)),
     }
